@@ -33,13 +33,19 @@ Lemma den_exec_ext ps r :
   (forall src rq, In src (srcs ps) -> d1 src rq = d2 src rq) ->
   forall p tr, den_exec d1 ps r p tr = den_exec d2 ps r p tr.
 Proof.
-  intros H. induction p as [v|e|i k IH]; intros tr; simpl; try reflexivity.
-  destruct (nth_error ps i) as [q|] eqn:Eq; [|reflexivity].
-  destruct (negb (p_lazy q)); [reflexivity|].
-  destruct (p_src q) as [src|] eqn:Es; [|apply IH].
-  rewrite (H src (r && p_strict q) (srcs_nth _ _ _ _ Eq Es)).
-  destruct (d2 src (r && p_strict q)) as [d t]. destruct d; try reflexivity; simpl;
-    (destruct (p_typed q && negb (p_compat q _)); [reflexivity|apply IH]).
+  intros H. induction p as [v|e|i k IH|i k IHk h IHh]; intros tr; simpl; try reflexivity.
+  - destruct (nth_error ps i) as [q|] eqn:Eq; [|reflexivity].
+    destruct (negb (p_lazy q)); [reflexivity|].
+    destruct (p_src q) as [src|] eqn:Es; [|apply IH].
+    rewrite (H src (r && p_strict q) (srcs_nth _ _ _ _ Eq Es)).
+    destruct (d2 src (r && p_strict q)) as [d t]. destruct d; try reflexivity; simpl;
+      (destruct (p_typed q && negb (p_compat q _)); [reflexivity|apply IH]).
+  - destruct (nth_error ps i) as [q|] eqn:Eq; [|reflexivity].
+    destruct (negb (p_lazy q)); [reflexivity|].
+    destruct (p_src q) as [src|] eqn:Es; [|apply IHk].
+    rewrite (H src (r && p_strict q) (srcs_nth _ _ _ _ Eq Es)).
+    destruct (d2 src (r && p_strict q)) as [d t]. destruct d; try apply IHh; simpl;
+      (destruct (p_typed q && negb (p_compat q _)); [apply IHh|apply IHk]).
 Qed.
 
 Lemma den_step_ext g inputs n r :
@@ -115,12 +121,17 @@ Variable d : name -> bool -> dres * list name.
 
 Lemma den_exec_not_skip ps r : forall p tr, fst (den_exec d ps r p tr) <> DSkip.
 Proof.
-  induction p as [v|e|i k IH]; intros tr; simpl; try discriminate.
-  destruct (nth_error ps i) as [q|]; [|simpl; discriminate].
-  destruct (negb (p_lazy q)); [simpl; discriminate|].
-  destruct (p_src q) as [src|]; [|apply IH].
-  destruct (d src (r && p_strict q)) as [dd t]. destruct dd; simpl; try discriminate;
-    (destruct (p_typed q && negb (p_compat q _)); [simpl; discriminate|apply IH]).
+  induction p as [v|e|i k IH|i k IHk h IHh]; intros tr; simpl; try discriminate.
+  - destruct (nth_error ps i) as [q|]; [|simpl; discriminate].
+    destruct (negb (p_lazy q)); [simpl; discriminate|].
+    destruct (p_src q) as [src|]; [|apply IH].
+    destruct (d src (r && p_strict q)) as [dd t]. destruct dd; simpl; try discriminate;
+      (destruct (p_typed q && negb (p_compat q _)); [simpl; discriminate|apply IH]).
+  - destruct (nth_error ps i) as [q|]; [|simpl; discriminate].
+    destruct (negb (p_lazy q)); [simpl; discriminate|].
+    destruct (p_src q) as [src|]; [|apply IHk].
+    destruct (d src (r && p_strict q)) as [dd t]. destruct dd; simpl; try apply IHh;
+      (destruct (p_typed q && negb (p_compat q _)); [apply IHh|apply IHk]).
 Qed.
 
 Lemma den_step_true_not_skip g inputs n : fst (den_step g inputs d n true) <> DSkip.
@@ -172,9 +183,9 @@ Qed.
 
 Lemma den_exec_rel ps :
   (forall src, In src (srcs ps) -> rel2 (d src false) (d src true) /\ fst (d src true) <> DSkip) ->
-  forall p tr, relE (den_exec d ps false p tr) (den_exec d ps true p tr).
+  forall p, nocatch p -> forall tr, relE (den_exec d ps false p tr) (den_exec d ps true p tr).
 Proof.
-  intros H. induction p as [v|e|i k IH]; intros tr; simpl.
+  intros H p Hnc. induction Hnc as [v|e|i k Hk IH]; intros tr; simpl.
   - unfold relE; simpl; reflexivity.
   - unfold relE; simpl; eauto.
   - destruct (nth_error ps i) as [q|] eqn:Eq; [|unfold relE; simpl; eauto].
@@ -198,11 +209,12 @@ Proof.
 Qed.
 
 Lemma den_step_rel g inputs n :
+  (forall ps body a, lookup n g = Some (Comp ps body) -> nocatch (body a)) ->
   (forall ps body src, lookup n g = Some (Comp ps body) -> In src (srcs ps) ->
      rel2 (d src false) (d src true) /\ fst (d src true) <> DSkip) ->
   rel2 (den_step g inputs d n false) (den_step g inputs d n true).
 Proof.
-  intros H. unfold den_step. destruct (lookup n g) as [[t nl|v|ps body]|] eqn:Eg.
+  intros Hnc H. unfold den_step. destruct (lookup n g) as [[t nl|v|ps body]|] eqn:Eg.
   - destruct (lookup n inputs) as [v|].
     + destruct (t && negb (is_int v)); unfold rel2; simpl; eauto.
     + destruct (t && negb nl); unfold rel2; simpl; auto.
@@ -214,7 +226,7 @@ Proof.
     destruct af as [a| |e].
     + inversion HA; subst. cbv iota beta.
       match goal with |- rel2 (den_exec d ps false ?p ?t) _ =>
-        pose proof (den_exec_rel ps H' p t) as HE; pose proof (den_exec_not_skip ps false p t) as Hns;
+        pose proof (den_exec_rel ps H' p (Hnc ps body a eq_refl) t) as HE; pose proof (den_exec_not_skip ps false p t) as Hns;
         unfold relE in HE; unfold rel2; destruct (fst (den_exec d ps false p t)) end;
         [exact HE|contradiction|exact HE].
     + destruct HA as [HA1 HA2]; subst. unfold rel2; simpl. auto.
@@ -230,6 +242,7 @@ Variable rank : name -> nat.
 Hypothesis Hrank : ranked g rank.
 Variable F : nat.
 Hypothesis HF : forall n, rank n < F.
+Hypothesis Hcf : catch_free g.
 Let D := D g inputs F.
 
 Lemma D_true_not_skip n : fst (D n true) <> DSkip.
@@ -240,6 +253,7 @@ Proof.
   assert (G : forall k n, rank n < k -> rel2 (D n false) (D n true)).
   { induction k as [|k IH]; intros n Hn; [lia|].
     unfold D. rewrite !(D_fix g inputs rank Hrank F HF). apply den_step_rel.
+    { intros ps body a Hl. eapply Hcf. apply lookup_in. exact Hl. }
     intros ps body src Hl Hin. pose proof (Hrank _ _ _ _ Hl Hin). split; [apply IH; lia|apply D_true_not_skip]. }
   intros n. apply (G (S (rank n))). lia.
 Qed.
